@@ -209,7 +209,8 @@ def run_sequence(c, tmp, rng, idx):
             labels = [int(x) for x in fds["a"].values] if fds is not None and "a" in fds.coords else []
             if not labels:
                 continue
-            op = ("drop", op[1], rng.choice(labels))
+            # sometimes a label that is not there, with errors="ignore": nothing is dropped, nothing raises
+            op = ("drop", op[1], rng.choice(labels)) if rng.random() < 0.8 else ("drop", op[1], 9, "ignore")
         new = None
         if kind in ("combos", "add_ds", "add_fail"):
             new = new_points(op[2], op[3], op[4])
@@ -243,7 +244,12 @@ def run_sequence(c, tmp, rng, idx):
             elif kind == "new_session":
                 hs[op[1]] = new_h()
             elif kind == "drop":
-                hs[op[1]].drop_sel(a=op[2], **ek)
+                if len(op) > 3:
+                    hs[op[1]].drop_sel({"a": op[2]}, errors="ignore", **ek)
+                elif rng.random() < 0.4:
+                    hs[op[1]].drop_sel({"a": op[2]}, **ek)
+                else:
+                    hs[op[1]].drop_sel(a=op[2], **ek)
         except Exception as e:  # noqa
             raised = True
             err = f"{type(e).__name__}: {str(e)[:120]}"
